@@ -169,15 +169,38 @@ class C05(Check):
                         broken.append(Broken("correspondence", "Link.status vs Tank.status", "%s: kind=%s _user_status=%s _internal_status=%s: impl %s model %s" % ((label,) + key + (ans,))))
 
                 B.ask("stat %s %s %s" % (key[0], F(key[1]), F(key[2])), cb_s)
+        # --- companions of setting / base_speed controls (_get_pump_controls / _get_valve_controls)
+        allc = spec["controls"]
+        if any(c.get("act", "status") != "status" for c in allc):
+            toks = []
+            for k, c in enumerate(allc):
+                li = tr.links.index(c["link"])
+                a = c.get("act", "status")
+                v = (1.0 if c["value"] == "OPEN" else 0.0) if a == "status" else float(c["value"])
+                toks.append("%d %d %d %s %s %s" % (k, c["prio"], li, tr.kinds[li], {"status": "status", "setting": "setting", "base_speed": "speed"}[a], F(v)))
+            exp = " | ".join("%s %s" % (w, " ; ".join("%d,%s,%s,%d" % (tr.links.index(x["link"]), x["field"], F(x["value"]), x["prio"]) for x in tr.companions[w])) for w in ("P", "V"))
+            odd = [x for w in ("P", "V") for x in tr.companions[w] if not x["shares_condition"] or x["ctype"] != x["src_ctype"]]
+            ctx.case(("companions", sig))
+            ctx.count("companions", sum(len(tr.companions[w]) for w in ("P", "V")))
+
+            def cb_c(ans, exp=exp, odd=odd):
+                norm = lambda t: " ".join(t.split())
+                if norm(ans) != norm(exp) or odd:
+                    broken.append(Broken("correspondence", "_get_pump_controls/_get_valve_controls companions vs Controls.companionsOf",
+                                         "%s:\n impl  %s\n model %s\n odd %s" % (label, exp, ans, odd[:2])))
+
+            B.ask("comp 1000 %d %s" % (len(allc), " ".join(toks)), cb_c)
         # --- passes
         B.ask("track %d %s" % (len(tr.tracked), " ".join("%d %s" % t for t in tr.tracked)))
 
         def observable(fields):
             out = []
             for (i, w) in tr.tracked:
-                u, it, s = fields[i]
+                u, it, s, sp = fields[i]
                 if w == "V":
                     out.append(s)
+                elif w == "P":
+                    out.append(sp)
                 elif tr.kinds[i] == "valve":
                     out.append(0.0 if u == 0.0 else (1.0 if u == 1.0 else it))
                 else:
@@ -264,29 +287,46 @@ class C05(Check):
             for i, ln in enumerate(tr.links):
                 st, se = r["links"][ln]
                 toks += [F(st), F(se), str(cvpump[i]), str(len(adj[i]))] + [str(a) for a in adj[i]]
-            toks += ["C", str(len(ctl))]
+            ctoks = []
             ambiguous = set()
+            nc = 0
             for k, c in enumerate(ctl):
                 li = tr.links.index(c["link"])
-                val = 1.0 if c["value"] == "OPEN" else 0.0
-                toks += [str(k), str(c["prio"]), str(li), "S", F(val)]
+                act = c.get("act", "status")
                 if c["src"] in tankset:
-                    toks += ["L", str(tids[c["src"]]), c["attr"], c["rel"], F(c["thr"])]
+                    ctok = ["L", str(tids[c["src"]]), c["attr"], c["rel"], F(c["thr"])]
                     h = r["tanks"][c["src"]][0]
                     cur = h if c["attr"] == "head" else h - tr.tanks[c["src"]]["elev"]
                 else:
                     cur = r["junc"][c["src"]][0 if c["attr"] == "head" else 1]
-                    toks += ["V", c["rel"], F(c["thr"]), F(cur)]
+                    ctok = ["V", c["rel"], F(c["thr"]), F(cur)]
                 if abs(cur - c["thr"]) <= AMBIG * max(1.0, abs(c["thr"])):
                     ambiguous.add(k)
+                    ambiguous.add(1000 + k)
+                if act == "status":
+                    ctoks += [str(k), str(c["prio"]), str(li), "S", F(1.0 if c["value"] == "OPEN" else 0.0)] + ctok
+                    nc += 1
+                elif act == "setting":
+                    ctoks += [str(k), str(c["prio"]), str(li), "V", F(float(c["value"]))] + ctok
+                    nc += 1
+                if act in ("setting", "base_speed"):
+                    # the companion the simulator adds: same condition, same priority, status := Active (valve) / Open (pump)
+                    ctoks += [str(1000 + k), str(c["prio"]), str(li), "S", F(2.0 if act == "setting" else 1.0)] + ctok
+                    nc += 1
+            toks += ["C", str(nc)] + ctoks
             ctx.case(("step", label, r["t"]))
 
             def cb(ans, r=r, ambiguous=ambiguous):
                 for tok in ans.split():
                     k, v = tok.split(":")
                     k = int(k)
+                    if k >= 1000:
+                        # a companion: its own command (valve: Active = "let _internal_status decide") is not judged from the
+                        # reported status; it only counts as a conflicting control for the others
+                        ctx.count("verdict:companion:%s" % v)
+                        continue
                     c = ctl[k]
-                    kind = "level" if c["src"] in tankset else "pressure"
+                    kind = ("level" if c["src"] in tankset else "pressure") + ("" if c.get("act", "status") == "status" else "-setting")
                     if k in ambiguous:
                         ctx.count("verdict:ambiguous")
                         continue
@@ -294,7 +334,7 @@ class C05(Check):
                     if v == "bad":
                         li = tr.links.index(c["link"])
                         failures.append(Failure(
-                            "control-inconsistent-%s-%s" % (kind, c["value"].lower()),
+                            "control-inconsistent-%s-%s" % (kind, str(c["value"]).lower() if c.get("act", "status") == "status" else "value"),
                             "%s t=%s: control %s (IF %s %s %s %s THEN %s %s, priority %d) holds on the reported state but %s is reported %s "
                             "(kind %s, no check valve / pump / tank at a limit / conflicting control of >= priority explains it)"
                             % (label, r["t"], c["name"], c["src"], c["attr"], c["rel"], c["thr"], c["link"], c["value"], c["prio"], c["link"],
@@ -311,14 +351,14 @@ class C05(Check):
             B.ask("rows %d %d %s" % (tids[n], len(rr), " ".join("%s %s %s" % (F(t), F(h), F(q)) for t, h, q in rr)))
         judged = {}
         for k, c in enumerate(ctl):
-            if c["src"] not in tankset:
+            if c["src"] not in tankset or c.get("act", "status") != "status":
                 continue
             val = 1.0 if c["value"] == "OPEN" else 0.0
             p = tr.tanks[c["src"]]
             for i in range(len(rows) - 1):
                 a, b = rows[i], rows[i + 1]
                 li = tr.links.index(c["link"])
-                u, it, _ = a["priv"][li]
+                u, it = a["priv"][li][:2]
 
                 def status(user, internal, kind=tr.kinds[li]):
                     if kind == "valve":
@@ -373,6 +413,10 @@ class C05(Check):
         specs.append(("designed/priority-conflict-high-first", K.priority_conflict_spec(True), None))
         specs.append(("designed/priority-conflict-high-last", K.priority_conflict_spec(False), None))
         specs.append(("designed/priority-conflict-equal", K.priority_conflict_spec(True, True), None))
+        # setting / base_speed controls of low priority against an explicit CLOSED of higher priority (companion controls)
+        for kind in ("valve", "pump"):
+            for cf in (False, True):
+                specs.append(("designed/companion-priority-%s-%s" % (kind, "close-first" if cf else "close-last"), K.companion_priority_spec(kind, cf), None))
         # presolve controls of every priority firing in the step where a threshold / limit is crossed: time order must win
         for prio in ([0, 1, 3, 6] if ctx.quick else range(7)):
             specs.append(("designed/presolve-priority-%d-threshold" % prio, K.priority_presolve_spec(prio, "threshold"), [0]))
